@@ -398,7 +398,8 @@ def main():
                     if rest > 0:
                         pass  # skipped runs are simply not counted; later chunks continue the seed range
                     distinct = {(v["harness"], v["result"]["cls"]) for v in violations}
-                    if len(violations) >= 12 or len(distinct) >= 4:
+                    # a violation is a stop condition: the quick tier reports the first one, the thorough tier up to three classes
+                    if tier == "quick" or len(violations) >= 6 or len(distinct) >= 3:
                         stop.set()
 
     threads = [threading.Thread(target=worker, args=(i,)) for i in range(WORKERS)]
@@ -458,8 +459,8 @@ def main():
         base = "%s-%s-%d-%d" % (pid, h, seed, v["run"])
         final = os.path.join(REPLAYS, base + ".json")
         shutil.copy(trace, os.path.join(REPLAYS, base + ".orig.json"))
-        mn = Minimiser(h, trace, res["cls"], budget_s=60 if tier == "quick" else 180)
-        best, info = mn.run()
+        mn = Minimiser(h, trace, res["cls"], budget_s=45 if tier == "quick" else 180, max_cand=200 if not reported else 0)
+        best, info = mn.run() if not reported else (None, {"note": "not minimised (only the first violation of a batch is)"})
         if best:
             shutil.copy(best, final)
             r3 = replay_once(h, final, os.path.join(SCRATCH, "gate3-%d.json" % os.getpid()))
